@@ -570,6 +570,20 @@ def s_tslice_get(ex, callee, args, dest_ty):
     return Enum("Some", [Ref([vec_elem(ex, v, i)], 0)], "Option")
 
 
+def s_tslice_first(ex, callee, args, dest_ty):
+    v = args[0].load() if isinstance(args[0], Ref) else args[0]
+    n = vec_len(v)
+    k = ex.ctx.choose([("some", n != 0), ("none", n == 0)])
+    if k == 1:
+        return Enum("None", [], "Option")
+    return Enum("Some", [Ref([vec_elem(ex, v, bv(0))], 0)], "Option")
+
+
+def s_vec_len(ex, callee, args, dest_ty):
+    v = args[0].load() if isinstance(args[0], Ref) else args[0]
+    return IntV(vec_len(v))
+
+
 def s_vec_index(ex, callee, args, dest_ty):
     v = args[0].load() if isinstance(args[0], Ref) else args[0]
     i = args[1].e
